@@ -176,6 +176,7 @@ def coq_expr(e):
 
 # ---- the scalar reference: SQL three-valued semantics on ONE row (None = NULL) --------------------
 EAGER = [False]
+LAX = [False]
 
 
 class Overflow(Exception):
@@ -220,6 +221,30 @@ def tdiv(x, y):
 
 def seval(e, row, cols):
     k = e[0]
+    if LAX[0] == 2 and k == "arith" and e[1] == "*":
+        # mul-zero (one of the rules of the known finding KF_C01_null_unsound_expr_rules): `x * 0` is rewritten to 0 whatever x is
+        for sub in (e[2], e[3]):
+            try:
+                if seval(sub, row, cols) == 0 and seval(sub, row, cols) is not None and sub[0] != "col":
+                    return 0
+            except (Overflow, TypeErr):
+                pass
+    if LAX[0] == 2 and k == "arith" and e[1] == "-" and e[2] == e[3]:
+        return 0          # sub-cancel
+    if LAX[0] == 2 and k == "cmp" and e[2] == e[3]:
+        return e[1] in ("=", ">=", "<=")      # eq-eq family
+    if k in ("and", "or") and LAX[0]:
+        # an optimiser may drop an operand next to the absorbing element (`x and false`, `x or true`), erroring or not
+        vals, exc = [], None
+        for sub in (e[1], e[2]):
+            try:
+                vals.append(seval(sub, row, cols))
+            except (Overflow, TypeErr) as ex:
+                exc = ex
+        if (k == "and" and False in [v for v in vals if v is not None]) or (k == "or" and True in [v for v in vals if v is not None]):
+            return k == "or"
+        if exc is not None:
+            raise exc
     if k == "col":
         return row[e[1]]
     if k == "const":
@@ -300,6 +325,36 @@ def seval(e, row, cols):
         a, b = seval(e[1], row, cols), seval(e[2], row, cols)
         return None if a is None or b is None else a + b
     raise ValueError(k)
+
+
+def subexprs(e):
+    out = [e]
+    for x in e[1:]:
+        if isinstance(x, tuple) and x and isinstance(x[0], str) and x[0] in ("col", "const", "arith", "cmp", "and", "or", "not", "neg", "isnull", "if", "in", "cast", "concat"):
+            out += subexprs(x)
+        elif isinstance(x, (list, tuple)) and x and all(isinstance(y, tuple) for y in x):
+            for y in x:
+                out += subexprs(y)
+    return out
+
+
+def error_kinds(e, row, cols):
+    """which kinds of error ('overflow', 'cast') some subexpression raises on this row when everything is evaluated"""
+    kinds = set()
+    EAGER[0] = True
+    try:
+        for sub in subexprs(e):
+            try:
+                seval(sub, row, cols)
+            except Overflow:
+                kinds.add("overflow")
+            except TypeErr:
+                kinds.add("cast")
+            except Exception:
+                pass
+    finally:
+        EAGER[0] = False
+    return kinds
 
 
 def gen_col(rng, t, n):
@@ -491,7 +546,7 @@ def sql_oracle(c, out):
             bad = "overflow"
         except TypeErr:
             bad = "cast"
-    res = []
+    res, inorder = [], []
     for o in (out[-3], out[-1]):
         if "ok" in o:
             vals = []
@@ -499,16 +554,50 @@ def sql_oracle(c, out):
                 v = r[0]
                 vals.append(None if v is None else v[1])
             res.append(sorted(map(repr, vals)))
+            inorder.append(vals)
         else:
             res.append("panic:" + str(o.get("panic", "abort")) if "panic" in o or "abort" in o else "err")
     if bad:
+        kinds = set()
+        for row in c["rows"]:
+            kinds |= error_kinds(e, row, cols)
+        if any(isinstance(r, str) and r.startswith("panic") and "overflow" in r for r in res):
+            # the statement has to fail; it fails through an integer overflow (of the expression as written, or of the form the
+            # optimiser distributed / re-associated it into), which panics: the known finding
+            return ("KF_C14_overflow_panics", f"overflow in `{c['q']}` panics (optimizer on/off: {res})")
         if any(isinstance(r, str) and r.startswith("panic") for r in res):
             return ("KF_C14_overflow_panics" if bad == "overflow" else None, f"{bad} in `{c['q']}` panics (optimizer on/off: {res})")
+        if bad == "cast" and isinstance(res[0], list) and res[1] == "err":
+            # the unoptimised statement reports the error; the optimiser may have dropped the erroring operand next to an absorbing
+            # `false` / `true` (a value SQL allows): accepted when that reading yields exactly the value returned
+            LAX[0] = True
+            try:
+                lax = sorted(repr(seval(e, row, cols)) for row in c["rows"])
+            except (Overflow, TypeErr):
+                lax = None
+            finally:
+                LAX[0] = False
+            if lax == res[0]:
+                return None
+            LAX[0] = 2
+            try:
+                lax = sorted(repr(seval(e, row, cols)) for row in c["rows"])
+            except (Overflow, TypeErr):
+                lax = None
+            finally:
+                LAX[0] = False
+            if lax == res[0]:
+                return ("KF_C01_null_unsound_expr_rules", f"`{c['q']}`: a rewrite of the known-unsound family (mul-zero, sub-cancel, eq-eq) dropped an operand "
+                                                          f"whose evaluation fails: optimizer on {res[0]}, off: error")
         if any(isinstance(r, list) for r in res):
             # e.g. the optimizer re-associates `-(c - (-1))` so that the intermediate overflow disappears
             return ("KF_C14_overflow_panics" if bad == "overflow" else None, f"{bad} in `{c['q']}` produced a value instead of an error: {res}")
         return None
     want = sorted(map(repr, expected))
+    if isinstance(res[0], list) and res[0] != want and not isinstance(res[1], list) and len(inorder[0]) == len(expected) and \
+            all(a == b or None in row for a, b, row in zip(inorder[0], expected, c["rows"])):
+        # the optimised answer is wrong only on rows holding a NULL (and the unoptimised statement fails for its own known reason)
+        return ("KF_C01_null_unsound_expr_rules", f"`{c['q']}` with the optimizer on returned {res[0]}, SQL semantics gives {want} (rows with NULL only)")
     if isinstance(res[0], list) and res[1] == want and res[0] != want and any(None in r for r in c["rows"]):
         return ("KF_C01_null_unsound_expr_rules", f"`{c['q']}` with the optimizer on returned {res[0]}, off (and SQL semantics) {want}")
     for which, r in zip(("optimizer on", "optimizer off"), res):
